@@ -233,21 +233,33 @@ class LoadedAtSave:
         from gemato.recursiveloader import ManifestRecursiveLoader as L
         self.cls = L
         self.orig = L.__init__
-        self.loaded = set()
+        self.orig_save = L.save_manifests
+        self.seen = set()       # every Manifest the loader ever held
+        self.loaded = set()     # ... up to the end of the last save
         tracker = self
+
+        def save_manifests(loader, *a, **kw):
+            try:
+                return tracker.orig_save(loader, *a, **kw)
+            finally:
+                # (Manifests picked up AFTER the last save played no part in what
+                # was written)
+                tracker.loaded.update(tracker.seen)
+        L.save_manifests = save_manifests
 
         def __init__(loader, *a, **kw):
             # (the constructor loads the top-level Manifest: install first)
-            loader.loaded_manifests = RecordingDict({}, tracker.loaded)
+            loader.loaded_manifests = RecordingDict({}, tracker.seen)
             tracker.orig(loader, *a, **kw)
             if not isinstance(loader.loaded_manifests, RecordingDict):
                 loader.loaded_manifests = RecordingDict(loader.loaded_manifests,
-                                                        tracker.loaded)
+                                                        tracker.seen)
         L.__init__ = __init__
         return self
 
     def __exit__(self, *exc):
         self.cls.__init__ = self.orig
+        self.cls.save_manifests = self.orig_save
 
 
 def beneath_any(path, scopes):
